@@ -876,6 +876,59 @@ def desugar_iterator_chains(ft, ads):
         ads.append({"rule": "D22", "what": f"{n22} `.iter().filter(|x| ..).cloned().collect_vec()` chain(s) desugared to an explicit loop pushing the clones of the elements that satisfy the condition"})
 
 
+def desugar_vec_extend(ft, ads):
+    """D28 (only with the directive `.extend push`): statements `V.extend(E);` on a Vec become `for d28_x in E { V.push(d28_x); }`, and
+    `V.extend(E.into_iter().map(|x| B));` becomes `for x in E { V.push(B); }` — Vec::extend pushes the items of the iterator in order."""
+    n = 0
+    while True:
+        sig = ft.sig
+        hit = None
+        for k in range(len(sig) - 3):
+            if [u.text for u in sig[k:k + 3]] == [".", "extend", "("]:
+                eo = k + 2
+                ec = match_close(sig, eo)
+                if sig[ec + 1].text != ";":
+                    continue
+                rs = _expr_start(sig, k - 1)
+                if sig[rs - 1].text not in (";", "{", "}"):
+                    continue
+                inner = sig[eo + 1:ec]
+                if not inner or _has_control_flow(inner):
+                    continue
+                hit = (rs, k, eo, ec)
+                break
+        if hit is None:
+            break
+        rs, k, eo, ec = hit
+        recv = ft.text[sig[rs].s:sig[k - 1].e]
+        inner = sig[eo + 1:ec]
+        ec_in = ec
+        if inner and inner[-1].text == ",":      # trailing comma of a multi-line call
+            inner = inner[:-1]
+            ec_in = ec - 1
+        mi = None
+        for q in range(len(inner) - 6):
+            if [u.text for u in inner[q:q + 7]] == [".", "into_iter", "(", ")", ".", "map", "("]:
+                mi = q
+        rep = None
+        if mi is not None:
+            mo = eo + 1 + mi + 6
+            mc = match_close(sig, mo)
+            if mc == ec_in - 1 and sig[mo + 1].text == "|" and sig[mo + 2].kind == "ident" and sig[mo + 3].text == "|":
+                src = ft.text[sig[eo + 1].s:sig[eo + 1 + mi - 1].e]
+                btxt = ft.text[sig[mo + 4].s:sig[mc - 1].e]
+                rep = f"for {sig[mo + 2].text} in {src} {{ {recv}.push({btxt}); }}"
+        if rep is None:
+            src = ft.text[inner[0].s:inner[-1].e]
+            rep = f"for d28_x{n} in {src} {{ {recv}.push(d28_x{n}); }}"
+        ft.edits.append((sig[rs].s, sig[ec + 1].e - sig[rs].s, rep))
+        ft.apply_edits()
+        ft.relex()
+        n += 1
+    if n:
+        ads.append({"rule": "D28", "what": f"{n} statement(s) `vec.extend(e);` desugared to a loop pushing the items of e in order"})
+
+
 def eta_expand_constructors(ft, ads):
     """D20: a datatype constructor used as a function value — `.map(Path::Variant)` — is unsupported by Verus; it is
     eta-expanded to `.map(|d20_x| Path::Variant(d20_x))` (same function)."""
@@ -916,6 +969,8 @@ def adapt_function(text, where, subs, report):
     ads = report["adaptations"]
     normalise_bool_assign(ft, ads)
     split_or_guard_arms(ft, ads)
+    if any(sd["kw"] == "extend" and sd["args"].strip() == "push" for sd in subs):
+        desugar_vec_extend(ft, ads)
     desugar_iterator_chains(ft, ads)
     desugar_enumerate_loops(ft, ads)
     hoist_loop_temporaries(ft, ads)
@@ -1300,9 +1355,10 @@ def extract_fragment(src, body, end, where, subs, rep):
     sd = {d["kw"]: d for d in subs}
     if "from" not in sd:
         raise ExtractError("template", f"{where}: //@stmts needs .from")
-    a = find_anchor(sig, body + 1, end, sd["from"]["args"].strip().strip('"'), where)
+    unq = lambda t: t.strip()[1:-1].replace('\\"', '"') if t.strip().startswith('"') and t.strip().endswith('"') else t.strip()  # noqa: E731
+    a = find_anchor(sig, body + 1, end, unq(sd["from"]["args"]), where)
     if "until" in sd:
-        b = find_anchor(sig, body + 1, end, sd["until"]["args"].strip().strip('"'), where)
+        b = find_anchor(sig, body + 1, end, unq(sd["until"]["args"]), where)
     else:
         b = end
     if b <= a:
@@ -1339,7 +1395,7 @@ def extract_fragment(src, body, end, where, subs, rep):
         for pos, dl in sorted(edits, key=lambda x: -x[0]):
             txt = txt[:pos] + txt[pos + dl:]
         rep["adaptations"].append({"rule": "D9", "what": f"{n} print!/println! call(s) dropped"})
-    rest = [d for d in subs if d["kw"] in ("loop", "endloop", "hint", "closure", "fmt")]
+    rest = [d for d in subs if d["kw"] in ("loop", "endloop", "hint", "closure", "fmt", "extend", "lettype")]
     wrapped = "fn __fragment() {\n" + txt + "\n}"
     wrapped = adapt_function(wrapped, where, rest, rep)
     i0 = wrapped.index("{") + 1
